@@ -2,6 +2,7 @@ package proxy
 
 import (
 	"context"
+	"errors"
 	"net"
 
 	"github.com/robinbraemer/event"
@@ -182,6 +183,8 @@ func zzProxy(cfg *config.Config, ev event.Manager) *Proxy {
 	}
 	return p
 }
+
+var errZZWrite = errors.New("write: broken pipe")
 
 func zzCanceledContext() (context.Context, context.CancelFunc) {
 	ctx, cancel := context.WithCancel(context.Background())
